@@ -228,6 +228,10 @@ MUTANTS = [
       "        d.addCallback(lambda ign: self._segsize_observers.when_fired())\n        return d\n\n    # things called by the Segmentation",
       "        def _fetched(ign):\n            return self._segsize_observers.when_fired()\n        d.addCallback(_fetched)\n        return d\n\n    # things called by the Segmentation",
       None),
+    M("benign-segsize-return-hoisted", ND,
+      "        d.addCallback(lambda ign: self._segsize_observers.when_fired())\n        return d\n\n    # things called by the Segmentation",
+      "        d.addCallback(lambda ign: self._segsize_observers.when_fired())\n        rv = d\n        return rv\n\n    # things called by the Segmentation",
+      None),
     M("benign-ueb-segsize-local", ND,
       "        self.segment_size = d['segment_size']\n        self._segsize_observers.fire(self.segment_size)",
       "        segsize = d['segment_size']\n        self.segment_size = segsize\n        self._segsize_observers.fire(segsize)", None),
